@@ -323,6 +323,92 @@ Theorem delay_count_nonneg interval sync acts s outs :
   forall r, (0 <= rcnt (d_rc s) r)%Z.
 Proof. intros H r. rewrite (delay_balance _ _ _ _ _ H). apply mocc_nonneg. Qed.
 
+(* ---- where 0 < interval matters: the forwarder never idles in get() while elements are queued ---- *)
+Definition DW (interval : Z) (s : dst) : Prop :=
+  d_int s = interval /\ (forall t0, d_mode s = DWait t0 -> d_q s = []).
+
+Lemma DW_iter_fresh s s2 dl :
+  (0 < d_int s)%Z -> (forall t0, d_mode s = DWait t0 -> t0 = d_now s) ->
+  d_iter s = (s2, dl) -> DW (d_int s) s2.
+Proof.
+  intros Hpos Hfresh Hi. unfold d_iter in Hi.
+  destruct (d_mode s) as [t0|t0 m0|u] eqn:Em.
+  - destruct (d_q s) as [|[x m] q] eqn:Eq.
+    + injection Hi as <- <-. split; [reflexivity|]. intros _ _. exact Eq.
+    + rewrite (Hfresh t0 eq_refl) in Hi. unfold d_take in Hi.
+      destruct (d_sync s); injection Hi as <- <-; (split; [reflexivity|]); dsimpl; [|discriminate].
+      unfold d_after. destruct (Z.ltb_spec 0 (d_int s - (d_now s - d_now s))) as [X|X]; [discriminate | lia].
+  - injection Hi as <- <-. split; [reflexivity|]. rewrite Em. discriminate.
+  - injection Hi as <- <-. split; [reflexivity|]. rewrite Em. discriminate.
+Qed.
+
+Lemma DW_iter_one s s2 dl :
+  (forall t0, d_mode s = DWait t0 -> length (d_q s) <= 1) ->
+  d_iter s = (s2, dl) -> DW (d_int s) s2.
+Proof.
+  intros Hone Hi. unfold d_iter in Hi.
+  destruct (d_mode s) as [t0|t0 m0|u] eqn:Em.
+  - destruct (d_q s) as [|[x m] q] eqn:Eq.
+    + injection Hi as <- <-. split; [reflexivity|]. intros _ _. exact Eq.
+    + specialize (Hone t0 eq_refl). destruct q; [|cbn [length] in Hone; lia].
+      unfold d_take in Hi. destruct (d_sync s); injection Hi as <- <-; (split; [reflexivity|]); dsimpl; reflexivity.
+  - injection Hi as <- <-. split; [reflexivity|]. rewrite Em. discriminate.
+  - injection Hi as <- <-. split; [reflexivity|]. rewrite Em. discriminate.
+Qed.
+
+Lemma DW_tick interval s s2 dl :
+  (0 < interval)%Z -> DW interval s -> d_tick s = (s2, dl) -> DW interval s2.
+Proof.
+  intros Hpos [Hi Hw] Ht. unfold d_tick in Ht.
+  destruct (d_mode s) as [t0|t0 m0|u] eqn:Em.
+  - injection Ht as <- <-. split; [exact Hi|]. dsimpl. intros _ _. exact (Hw t0 eq_refl).
+  - injection Ht as <- <-. split; [exact Hi|]. dsimpl. discriminate.
+  - destruct (u <=? d_now s + 1)%Z.
+    + apply DW_iter_fresh in Ht; dsimpl; [rewrite Hi in Ht; exact Ht | lia |].
+      intros t0 H. injection H as <-. reflexivity.
+    + injection Ht as <- <-. split; [exact Hi|]. dsimpl. discriminate.
+Qed.
+
+Lemma DW_adv interval : (0 < interval)%Z -> forall n s s2 dl,
+  DW interval s -> d_adv n s = (s2, dl) -> DW interval s2.
+Proof.
+  intros Hpos. induction n as [|n IH]; intros s s2 dl HW Ha; cbn [d_adv] in Ha.
+  - injection Ha as <- <-. exact HW.
+  - destruct (d_tick s) as [s1 d1] eqn:Et. destruct (d_adv n s1) as [s3 d2] eqn:Ea.
+    injection Ha as <- <-. eapply IH; [|exact Ea]. eapply DW_tick; [exact Hpos | exact HW | exact Et].
+Qed.
+
+Lemma DW_step interval s a s' o :
+  (0 < interval)%Z -> DW interval s -> nm_step delay_model s a = (s', o) -> DW interval s'.
+Proof.
+  intros Hpos [Hi Hw] Hs. cbn [nm_step delay_model] in Hs.
+  destruct a as [src x m| |k|dt]; cbn [d_step] in Hs.
+  - match type of Hs with (let '(_, _) := d_iter ?s1 in _) = _ => destruct (d_iter s1) as [s2 dl] eqn:Ei end.
+    injection Hs as <- <-. apply DW_iter_one in Ei; dsimpl; [rewrite Hi in Ei; exact Ei|].
+    intros t0 Em. rewrite (Hw t0 Em). cbn. lia.
+  - destruct (d_mode s) as [t0|t0 m0|u] eqn:Em; try (injection Hs as <- <-; split; [exact Hi|]; rewrite Em; discriminate).
+    + injection Hs as <- <-. split; [exact Hi|]. intros _ _. exact (Hw t0 eq_refl).
+    + match type of Hs with (let '(_, _) := d_iter ?s1 in _) = _ => destruct (d_iter s1) as [s2 dl] eqn:Ei end.
+      injection Hs as <- <-. apply DW_iter_fresh in Ei; dsimpl; [rewrite Hi in Ei; exact Ei | lia |].
+      intros t1 H. destruct (d_after_cases s (d_now s) t0) as [[u E] | E]; rewrite E in H; [discriminate|].
+      injection H as <-. reflexivity.
+  - injection Hs as <- <-. split; [exact Hi | exact Hw].
+  - destruct (d_adv (Z.to_nat dt) s) as [s1 dl] eqn:Ea. injection Hs as <- <-.
+    eapply DW_adv; [exact Hpos | split; [exact Hi | exact Hw] | exact Ea].
+Qed.
+
+Theorem delay_no_stall interval sync acts s outs :
+  (0 < interval)%Z ->
+  run_steps delay_model (d_init interval sync) acts = (s, outs) ->
+  forall t0, d_mode s = DWait t0 -> d_pending s = [].
+Proof.
+  intros Hpos H.
+  pose proof (run_steps_inv delay_model (fun _ s _ => DW interval s)
+                (fun acts s outs a s' o HW Hs => DW_step interval s a s' o Hpos HW Hs)
+                acts [] (d_init interval sync) [] s outs) as X.
+  destruct X as [_ X]; [split; [reflexivity | intros _ _; reflexivity] | exact H | exact X].
+Qed.
+
 (* ---- non-vacuity: an element in flight, one queued behind a sleeping forwarder ------------------- *)
 Definition dm (i : nat) : md := [{| mid := i; mref := true |}].
 Definition d_ex_acts : list act :=
@@ -351,4 +437,5 @@ Print Assumptions delay_times_sorted.
 Print Assumptions delay_balance.
 Print Assumptions delay_cb_not_early.
 Print Assumptions delay_count_nonneg.
+Print Assumptions delay_no_stall.
 Print Assumptions delay_nonvacuous.
